@@ -60,7 +60,14 @@ def check_markers_safe(system: System) -> None:
                 raise HarnessError(f"harness placed markers of {b.kind} outside the supported interior (axis {ax}: {p[ax].min() / dx:.2f}..{p[ax].max() / dx:.2f} of {n_ax} cells)")
 
 
-def run_phase1(system: System, ops, store: str, same_process_k=None, workdir=None):
+def run_phase1(system: System, ops, store: str, same_process_k=None, workdir=None, prelude=None):
+    if prelude is not None:
+        # another simulation lived in the process of the uninterrupted run before it (other grid, same
+        # kinds of objects): whatever it left in module- or class-level caches must not matter
+        other = System(prelude)
+        for op in prelude["ops"]:
+            other.step(op)
+        del other
     traj = []
     dts = []
     for k, op in enumerate(ops):
@@ -145,7 +152,7 @@ class C18(Check):
     }
     required_probes = [
         "crash_with_nonzero_integral", "crash_with_live_velocity_mismatch", "dt_changed_across_checkpoint", "queries_dirtied_scratch",
-        "restart_in_new_process", "same_process_restart", "helper_stale_set", "late_start_time", "helper_empty_dir", "helper_clock_skew", "helper_torn_set", "helper_five_digit_index",
+        "restart_in_new_process", "same_process_restart", "prelude_simulation_in_the_process_of_the_uninterrupted_run", "helper_stale_set", "late_start_time", "helper_empty_dir", "helper_clock_skew", "helper_torn_set", "helper_five_digit_index",
     ]
     tiers = {
         "quick": {"runs": 128, "batch": 1, "timeout": 600},
@@ -237,6 +244,14 @@ class C18(Check):
             q = [x for x in ("stable", "div", "dev") if rng.random() < 0.4]
             ops.append({"dt": dt, "queries": q, "substeps": rng.choice([1, 2, 3])})
         scenarios = rng.sample(["empty", "stale", "skew", "torn", "five_digit"], k=rng.choice([1, 2, 2, 3]))
+        if rng.random() < 0.3:
+            pre = copy.deepcopy({k: v for k, v in c.items() if k not in ("ops", "helper")})
+            pre["flow"] = (c["flow"] + 1) % len(FLOWS[dim])
+            pre["nu"] = rng.choice([1.0e-2, 3.0e-3, 5.0e-2])
+            pre["zone"] = rng.choice([0, 2, 3])
+            pre["init_sub"] = prng.sub_seed(rng)
+            pre["ops"] = [{"dt": 2.0e-3, "queries": ["stable"], "substeps": 1}, {"dt": 1.0e-3, "queries": [], "substeps": 2}]
+            c["prelude"] = pre
         c["ops"] = ops
         c["helper"] = {"scenarios": scenarios, "sub": prng.sub_seed(rng)}
         c["fresh_interpreter"] = (rng.random() < (0.12 if tier == "quick" else 0.3))
@@ -272,7 +287,9 @@ class C18(Check):
 
             try:
                 k_same = (program.get("same_process_k", 0) % n) if program.get("same_process", True) else None
-                ph1 = in_fork(lambda: run_phase1(pristine, ops, store, k_same, wd))
+                ph1 = in_fork(lambda: run_phase1(pristine, ops, store, k_same, wd, program.get("prelude")))
+                if program.get("prelude"):
+                    res.probe("prelude_simulation_in_the_process_of_the_uninterrupted_run")
             except HarnessError as e:
                 if "outside the supported interior" in str(e) or "unable to broadcast" in str(e):
                     # the drawn program drives a body out of the region SophT supports (no boundary
@@ -550,7 +567,7 @@ class C18(Check):
                 del c["bodies"][i]
                 c["with_forcing"] = True
                 yield c
-        for key, val in (("free_stream_ramp", False), ("time0", 0.0), ("filter", None), ("free_stream", None), ("zone", 0), ("poisson", "greens"), ("vort_amp", 0.0), ("fresh_interpreter", False), ("same_process", False)):
+        for key, val in (("prelude", None), ("free_stream_ramp", False), ("time0", 0.0), ("filter", None), ("free_stream", None), ("zone", 0), ("poisson", "greens"), ("vort_amp", 0.0), ("fresh_interpreter", False), ("same_process", False)):
             if key in program and program[key] != val:
                 c = copy.deepcopy(program)
                 c[key] = val
